@@ -268,6 +268,7 @@ class ProgramDiff(Prop):
     genome = {'quick': 400, 'thorough': 400}
     full_parens_choice = False  # C06: print bodies fully parenthesised in half of the cases
     extra_clauses = ()          # fixed helper clauses appended to every program
+    dyn_facts = False           # sometimes assert facts for the program's own predicates before the query
 
     def selftest(self, tier):
         self._tier = tier
@@ -278,17 +279,30 @@ class ProgramDiff(Prop):
         clauses = list(clauses) + list(self.extra_clauses)
         queries = [self.gen_query(src, preds, clauses) for _ in range(self.nqueries)]
         full = bool(self.full_parens_choice and src.n(2) == 1)
+        dyn = []
+        if self.dyn_facts and src.n(3) == 2:
+            keys = [(h[1], len(h[2]) if h[0] == 'f' else 0) for h, _ in clauses]
+            for _ in range(1 + src.n(3)):
+                name, n = src.pick(keys)
+                dyn.append(('f', name, tuple(gen.gen_term(src, [], self.cfg, 1) for _ in range(n))) if n else ('a', name))
         text = gen.program_text(clauses, src, full=full)
-        return {'text': text, 'clauses': clauses, 'queries': queries}
+        case = {'text': text, 'clauses': clauses, 'queries': queries}
+        if dyn:
+            case['dyn'] = dyn
+        return case
+
 
     def gen_query(self, src, preds, clauses):
         return gen.gen_query(src, preds, self.cfg, clauses)
 
     def sample_view(self, case):
-        return {'text': case['text'], 'queries': [show(tt(q)) for q in case['queries']]}
+        v = {'text': case['text'], 'queries': [show(tt(q)) for q in case['queries']]}
+        if case.get('dyn'):
+            v['asserted_before_the_query'] = [show(tt(t)) for t in case['dyn']]
+        return v
 
     def case_key(self, case):
-        return case['text'] + '\x00' + repr(case['queries'])
+        return case['text'] + '\x00' + repr(case['queries']) + repr(case.get('dyn') or '')
 
     def shrink_candidates(self, case):
         return shrink_program_case(case, plain_text)
@@ -319,8 +333,18 @@ class ProgramDiff(Prop):
         nontrivial = False
         decided = 0
         self._n += 1
+        dyn = tt(case.get('dyn') or [])
+
+        def ref_setup(it):
+            for t in dyn:
+                it.assert_fact(t)
+
+        def impl_setup(yp):
+            for t in dyn:
+                vm = {}
+                yp.assert_fact(yp.atom(t[1]), [impl.to_engine(yp, x, vm) for x in (t[2] if t[0] == 'f' else ())])
         for q in queries:
-            st, ref, it = self.ref_run(clauses, q)
+            st, ref, it = self.ref_run(clauses, q, setup=ref_setup if dyn else None)
             if st == 'unspec':
                 classes.add('query-unspecified')
                 continue
@@ -333,13 +357,13 @@ class ProgramDiff(Prop):
             every = self.crosscheck.get(getattr(self, '_tier', 'quick'), 8)
             if st == 'done' and self._n % every == 0:
                 st2, ref2, m2 = run_ref(clauses, q, engine='M', max_steps=self.ref_steps, max_depth=self.ref_depth,
-                                        limit=self.answer_limit)
+                                        limit=self.answer_limit, setup=(lambda m: [m.facts.setdefault((t[1], len(t[2]) if t[0] == 'f' else 0), []).append(__import__('harness.refint', fromlist=['Fact']).Fact(m.rename(t, {}))) for t in dyn]) if dyn else None)
                 if st2 == 'done' and (ref2 != ref or (self.compare_db and m2.db() != it.db())):
                     raise HarnessError('the two reference engines disagree on %r ?- %s: R %r M %r'
                                        % (case['text'], show(q), answers_view(ref), answers_view(ref2)))
                 classes.add('crosschecked-second-engine')
             yps = []
-            r = impl_answers(code, q, st, ref, it.steps, yp_out=yps)
+            r = impl_answers(code, q, st, ref, it.steps, yp_out=yps, setup=impl_setup if dyn else None)
             decided += 1
             if r[0] == 'exc':
                 return FAIL('exception:' + r[1], {'text': case['text'], 'query': show(q), 'error': r[2],
